@@ -1068,6 +1068,69 @@ def boxes_in(prog, t, v, out):
             boxes_in(prog, arm, v["v"], out)
 
 
+def opaques_in(prog, t, v, out):
+    """ids of every opaque object (borrowed or owned) inside a value"""
+    k = t[0]
+    if v is None:
+        return
+    if k in ("ref", "box"):
+        out.append(v["id"])
+    elif k == "opt":
+        opaques_in(prog, t[1], v["some"], out)
+    elif k == "struct":
+        it = ir.find_item(prog, t[1])
+        for f in it["fields"]:
+            opaques_in(prog, f[1], v[f[0]], out)
+    elif k == "result":
+        arm = t[1] if v["ok"] else t[2]
+        if arm[0] != "unit":
+            opaques_in(prog, arm, v["v"], out)
+
+
+def expected_drops(prog, plan, reject=None):
+    """ids of the opaque objects the (non-history) drivers create or receive and destroy: each must be dropped exactly once.
+    Borrowed returns are leaked on purpose by the Rust bodies and never dropped."""
+    ms = methods_in_order(prog)
+    out = []
+    for p_, (mod, it, impl, m) in zip(plan, ms):
+        for c in p_["calls"]:
+            if m["self"] is not None and it["kind"] == "opaque":
+                out.append(c["self"]["id"])
+            elif m["self"] is not None and it["kind"] == "struct":
+                opaques_in(prog, ["struct", it["name"], []], c["self"], out)
+            for q in m["params"]:
+                if q[1][0] not in ("write", "cb"):
+                    opaques_in(prog, q[1], c["args"][q[0]], out)
+            if reject is not None and reject(m, c):
+                continue
+            if m["ret"] is not None:
+                got = []
+                boxes_in(prog, m["ret"], c["ret"], got)
+                out += [oid for _, oid in got]
+            for q in m["params"]:
+                if q[1][0] == "cb":
+                    for inv in c.get("cbs", {}).get(q[0], []):
+                        for a, v in zip(q[1][1], inv["args"]):
+                            got = []
+                            boxes_in(prog, a, v, got)
+                            out += [oid for _, oid in got]
+    return sorted(out)
+
+
+def drop_fails(prog, plan, lines, reject=None):
+    want = expected_drops(prog, plan, reject)
+    d = [l for l in lines if l.startswith("drops ")]
+    if not d:
+        return [("drops", "the driver did not reach the drop-ledger dump")]
+    got = sorted(int(x) for x in d[0][len("drops "):].split(",") if x)
+    if got != want:
+        twice = sorted({x for x in got if got.count(x) > 1})
+        never = [x for x in want if x not in got]
+        extra = [x for x in got if x not in want]
+        return [("drops", "opaque objects: dropped twice %s, never dropped although destroyed/owned by the foreign side %s, dropped without an owner %s" % (twice, never, extra))]
+    return []
+
+
 class HistoryGen(ValueGen):
     def __init__(self, draw, prog):
         super().__init__(draw, prog)
